@@ -32,7 +32,8 @@
    execution is compared (for drift, never for a verdict) with every design the code may currently implement.       *)
 EXTENDS LogOrderClauses, TLC
 
-CONSTANTS MaxSteps, Pres, Designs
+CONSTANTS MaxSteps, Pres, Designs,
+          FullHeaderGrid     \* FALSE: leave out (header declared, no message in the method body) -- used with the larger MaxSteps
 
 \* ------------------------------------------------------------------------------------------ the space of calls
 St(p, a, q) == [pre |-> p, act |-> a, post |-> q]
@@ -47,7 +48,7 @@ StepScripts(kind) == LET E == IF kind = "prod" THEN EndStepsProd ELSE EndStepsEx
 OpsFor(kind) == IF kind = "prod" THEN {<<"i">>, <<"i", "c">>, <<"t", "c">>, <<"t", "x">>, <<"t", "w">>, <<"c">>, <<"x">>, <<"w">>,
                                         <<"t", "t", "c">>, <<"t", "t", "x">>, <<"t", "t", "w">>}
                 ELSE {<<"t", "t", "c">>, <<"t", "t", "w">>, <<"t", "c">>, <<"t", "x">>, <<"t", "w">>, <<"t", "t", "x">>, <<"c">>, <<"x">>}
-Scripts ==
+AllScripts ==
   {[tr |-> tp, kind |-> "unary", hdr |-> FALSE, n0 |-> n, iraise |-> ir, steps |-> <<>>, ops |-> <<>>] :
       tp \in {"pipe", "http"}, n \in {0, 1, 2}, ir \in BOOLEAN}
   \cup UNION {{[tr |-> tp, kind |-> kd, hdr |-> hd, n0 |-> n, iraise |-> FALSE, steps |-> st, ops |-> op] :
@@ -56,6 +57,8 @@ Scripts ==
               kd \in {"prod", "exch"}}
   \cup {[tr |-> tp, kind |-> kd, hdr |-> hd, n0 |-> n, iraise |-> TRUE, steps |-> <<>>, ops |-> IF kd = "prod" THEN <<"i">> ELSE <<"t", "c">>] :
            tp \in {"pipe", "http"}, kd \in {"prod", "exch"}, hd \in BOOLEAN, n \in {0, 1, 2}}
+
+Scripts == {sc \in AllScripts : FullHeaderGrid \/ sc.kind = "unary" \/ sc.iraise \/ ~(sc.hdr /\ sc.n0 = 0)}
 
 VARIABLES script, design, c2s, s2c, srv, cli, em, rv
 vars == <<script, design, c2s, s2c, srv, cli, em, rv>>
